@@ -217,13 +217,17 @@ func reloadScenario(t *testing.T, r *vrng) (line, obs, sig, desc string) {
 	defer stop2()
 	p.set(true)
 	time.Sleep(time.Until(t0.Add(time.Duration(failDur+150) * time.Millisecond)))
+	// a late forgetter (loaded machine) is not a forgotten forgetter: give it two more seconds
+	for t1 := time.Now(); atomic.LoadInt32(&h2.Upstreams[0].peers[0].fails) != 0 && time.Since(t1) < 2*time.Second; {
+		time.Sleep(10 * time.Millisecond)
+	}
 	f := atomic.LoadInt32(&h2.Upstreams[0].peers[0].fails)
 	avail := h2.Upstreams[0].available()
 	err2 := handle(h2)
 	obs = "*"
 	if f != 0 || !avail || err2 != nil {
 		sig = "failure-not-forgotten-after-reload"
-		desc = fmt.Sprintf("a dial failure at t=0 is still remembered %d ms later (fail_duration %d ms) after a configuration reload at %d ms: fails=%d available=%v, a new connection gets %v", failDur+150, failDur, reloadAt, f, avail, err2)
+		desc = fmt.Sprintf("a dial failure at t=0 is still remembered more than %d ms later (fail_duration %d ms) after a configuration reload at %d ms: fails=%d available=%v, a new connection gets %v", failDur+2150, failDur, reloadAt, f, avail, err2)
 	}
 	return line, obs, sig, desc
 }
@@ -583,6 +587,18 @@ func healthHistory(seed uint64, peers []*hpeer) (res struct {
 		}
 	}
 	time.Sleep(time.Duration(failDur+40) * time.Millisecond)
+	// the forgetters may be late on a loaded machine: a drift is a counter that does not come back at all
+	for t1 := time.Now(); time.Since(t1) < 2*time.Second; time.Sleep(10 * time.Millisecond) {
+		zero := true
+		for p := 0; p < nPeers; p++ {
+			if atomic.LoadInt32(&peerObj[p].fails) != 0 || atomic.LoadInt32(&peerObj[p].numConns) != 0 {
+				zero = false
+			}
+		}
+		if zero {
+			break
+		}
+	}
 	for p := 0; p < nPeers; p++ {
 		f, c := atomic.LoadInt32(&peerObj[p].fails), atomic.LoadInt32(&peerObj[p].numConns)
 		if f != 0 || c != 0 {
